@@ -7,7 +7,10 @@ REPO = os.environ.get("VERIF_REPO", "/repo")
 SRC = os.path.join(REPO, "src")
 COQ = os.path.join(VERIF, "coq")
 BUILD = os.path.join(VERIF, "build")
-EVIDENCE = os.path.join(VERIF, "evidence")
+# evidence/<id>.json describes runs against /repo; a run against another tree (VERIF_REPO = a scratch worktree
+# carrying a seeded change) writes its evidence under build/ so that it never replaces the committed file
+EVIDENCE = (os.path.join(VERIF, "evidence") if os.path.realpath(REPO) == "/repo"
+            else os.path.join(VERIF, "build", "evidence-" + os.path.basename(os.path.normpath(REPO))))
 PY = "/venv/bin/python"
 JOBS = int(os.environ.get("VERIF_JOBS", "16"))
 
